@@ -210,6 +210,11 @@ func corpusDeterminism() []*modSpec {
 	return []*modSpec{
 		mk("det-many-imports", "package models\n\nimport (\n\t\"database/sql\"\n\t\"time\"\n\n\t\"example.com/org/models/suba\"\n\t\"example.com/org/models/subb\"\n)\n\ntype S struct {\n\tId int64\n\tA suba.T\n\tB subb.T\n\tN sql.NullInt64\n\tD time.Time\n\tW time.Weekday\n}\n",
 			modFile{"suba/a.go", "package suba\n\ntype T struct{ X int }\n"}, modFile{"subb/b.go", "package subb\n\ntype T struct{ Y string }\n"}),
+		mk("det-enum-constant-in-another-package", "package models\n\nimport (\n\t\"example.com/org/models/defaults\"\n\t\"example.com/org/models/kinds\"\n)\n\nvar _ = defaults.DefaultKind\n\ntype S struct {\n\tK kinds.Kind\n\tL []kinds.Kind\n}\n",
+			modFile{"kinds/kinds.go", "package kinds\n\ntype Kind int\n\nconst (\n\tCircle Kind = iota\n\tSquare\n\tTriangle\n)\n"}, modFile{"defaults/defaults.go", "package defaults\n\nimport \"example.com/org/models/kinds\"\n\nconst DefaultKind = kinds.Square\n\nconst Other kinds.Kind = 7\n"}),
+		mk("det-enum-constants-only-elsewhere", "package models\n\nimport (\n\t\"example.com/org/models/a\"\n\t\"example.com/org/models/b\"\n\t\"example.com/org/models/kinds\"\n)\n\nvar _ = a.A1\nvar _ = b.B1\n\ntype S struct{ K kinds.Kind }\n",
+			modFile{"kinds/kinds.go", "package kinds\n\ntype Kind int\n"}, modFile{"a/a.go", "package a\n\nimport \"example.com/org/models/kinds\"\n\nconst A1 kinds.Kind = 1\n"},
+			modFile{"b/b.go", "package b\n\nimport \"example.com/org/models/kinds\"\n\nconst B1 kinds.Kind = 2\nconst B2 kinds.Kind = 3\n"}),
 		mk("det-many-unions", "package models\n\ntype U1 interface{ is1() }\ntype U2 interface{ is2() }\ntype U3 interface{ is3() }\ntype U4 interface{ is4() }\n\ntype A struct{ X int }\ntype B struct{ Y int }\n\nfunc (A) is1() {}\nfunc (A) is2() {}\nfunc (A) is3() {}\nfunc (A) is4() {}\nfunc (B) is1() {}\nfunc (B) is3() {}\n\ntype S struct {\n\tV1 U1\n\tV2 U2\n\tV3 U3\n\tV4 U4\n}\n"),
 	}
 }
